@@ -4,6 +4,7 @@ import Chartparse.Gen.Imports
 import Chartparse.Model.Objects
 import Chartparse.Gen.Classes
 import Chartparse.Gen.Leaf
+import Chartparse.Gen.Imp
 /-! Line-protocol driver: one request per line on stdin, one canonical reply per line on stdout.
     Imports only `Model/` and `Gen/` (no Mathlib), so it links as a native executable. -/
 open Chartparse Chartparse.F64 Chartparse.Tempo Chartparse.Inst Chartparse.Meta Chartparse.Rate
@@ -179,6 +180,88 @@ def showMap (evs : List BpmEv) : String := sec "B" (evs.map fun e => s!"{e.tick}
 def buildValid (res : Int) (raw : List (Nat × Rat)) : M (List BpmEv) :=
   if raw.all (fun tb => validBpm tb.2) then buildMap res raw else .error .valueError
 
+/-! ### the imperative embedding (`Model/Imp.lean`): values in prefix notation, recorded external calls -/
+namespace ImpIO
+open Chartparse.PyImp
+
+mutual
+partial def parseVal : List String → Option (Val × List String)
+  | "I" :: n :: r => some (.int n.toInt!, r)
+  | "B" :: b :: r => some (.bool (b == "1"), r)
+  | "N" :: r => some (.none, r)
+  | "T" :: n :: r => some (.td n.toInt!, r)
+  | "S" :: c :: r => some (.str (parseCps c), r)
+  | "L" :: n :: r => (parseVals n.toNat! r).map fun p => (.list (Val.ofList p.1), p.2)
+  | "U" :: n :: r => (parseVals n.toNat! r).map fun p => (.tup (Val.ofList p.1), p.2)
+  | "O" :: cls :: n :: r => (parseFields n.toNat! r).map fun p => (.obj cls p.1, p.2)
+  | _ => none
+partial def parseVals : Nat → List String → Option (List Val × List String)
+  | 0, r => some ([], r)
+  | n + 1, r => match parseVal r with
+    | some (v, r') => (parseVals n r').map fun p => (v :: p.1, p.2)
+    | none => none
+partial def parseFields : Nat → List String → Option (Val × List String)
+  | 0, r => some (.fnil, r)
+  | n + 1, name :: r => match parseVal r with
+    | some (v, r') => (parseFields n r').map fun p => (.field name v p.1, p.2)
+    | none => none
+  | _, _ => none
+end
+
+partial def showVal : Val → String
+  | .int n => s!"I {n}"
+  | .bool b => if b then "B 1" else "B 0"
+  | .none => "N"
+  | .td n => s!"T {n}"
+  | .str c => s!"S {showCps c}"
+  | .list sp => match sp.toList? with
+    | some l => s!"L {l.length}" ++ String.join (l.map fun v => " " ++ showVal v)
+    | none => "?spine"
+  | .tup sp => match sp.toList? with
+    | some l => s!"U {l.length}" ++ String.join (l.map fun v => " " ++ showVal v)
+    | none => "?spine"
+  | .obj cls fs => s!"O {cls}" ++ showFields fs 0 ""
+  | _ => "?"
+where
+  showFields : Val → Nat → String → String
+    | .field name v rest, n, acc => showFields rest (n + 1) (acc ++ " " ++ name ++ " " ++ showVal v)
+    | _, n, acc => s!" {n}" ++ acc
+
+def parseErr (s : String) : PyErr :=
+  if s == "ValueError" then .valueError else if s == "RegexNotMatchError" then .regexNotMatch
+  else if s == "MissingRequiredField" then .missingRequiredField else .internal ((s.splitOn "internal:").getLast!)
+
+/-- `n` recorded calls: `fname nargs args… (R val | E kind)` -/
+partial def parseTable : Nat → List String → Option (List (String × List Val × M Val) × List String)
+  | 0, r => some ([], r)
+  | n + 1, f :: k :: r =>
+    match parseVals k.toNat! r with
+    | some (args, "R" :: r') => match parseVal r' with
+      | some (v, r'') => (parseTable n r'').map fun p => ((f, args, .ok v) :: p.1, p.2)
+      | none => none
+    | some (args, "E" :: kind :: r') => (parseTable n r').map fun p => ((f, args, .error (parseErr kind)) :: p.1, p.2)
+    | _ => none
+  | _, _ => none
+
+def run (name : String) (rest : List String) : String :=
+  match Chartparse.Gen.Imp.byName name, rest with
+  | some (params, locals, body), fuel :: np :: r =>
+    match parseVals np.toNat! r with
+    | some (args, nt :: r') =>
+      match parseTable nt.toNat! r' with
+      | some (table, _) =>
+        let ext : Ext := fun f a => match table.find? (fun e => e.1 == f && e.2.1 == a) with
+          | some e => e.2.2
+          | none => unsupported ("no recorded call of " ++ f)
+        match Chartparse.PyImp.run ext fuel.toNat! body (initEnv (params.zip args) locals) with
+        | some (.ok v) => "R " ++ showVal v
+        | some (.error e) => showErr e
+        | none => "E fuel"
+      | none => "bad-table"
+    | _ => "bad-args"
+  | _, _ => "bad-name"
+end ImpIO
+
 def handle (toks : List String) : String :=
   match toks with
   | ["chart", text, want] =>
@@ -203,6 +286,7 @@ def handle (toks : List String) : String :=
   | ["int", text] => toString (intOf (parseCps text))
   | ["split", text] => ";".intercalate ((splitlines (parseCps text)).map showCps)
   | "leaf" :: name :: args => runLeaf name args
+  | "imp" :: name :: rest => ImpIO.run name rest
   | "pyx" :: envs :: toks =>
     -- envs: `x=i:3,y=f:1/3` (or `-`); toks: a prefix-notation expression
     let env : Chartparse.Py.Env := if envs == "-" then [] else (envs.splitOn ",").filterMap fun kv =>
